@@ -12,14 +12,22 @@ use std::pin::Pin;
 
 macro_rules! format { ($($t:tt)*) => { Msg } }
 #[derive(Clone, Copy)] pub struct Msg;
-#[derive(Clone, Copy, Debug, PartialEq, Eq)] pub struct IoError(pub u8);
-pub type IoResult<T> = Result<T, IoError>;
+/// the real std::io::Error, so that an edited body may inspect `e.kind()`; stub failures are allocation-free "simple"
+/// errors whose kind is chosen symbolically among the ones a socket produces
+pub type IoError = std::io::Error;
+pub type IoResult<T> = std::io::Result<T>;
+#[allow(non_snake_case)]
+pub fn IoError(code: u8) -> std::io::Error {
+    use std::io::ErrorKind::*;
+    let k = nondet_u8();
+    std::io::Error::from(if k == 0 { ConnectionReset } else if k == 1 { ConnectionAborted } else if k == 2 { BrokenPipe } else if k == 3 { TimedOut } else { Other })
+}
 #[derive(Clone, Copy, Debug, PartialEq, Eq)] pub struct Error(pub u8);
 pub fn err_msg<T>(_m: T) -> Error { Error(100) }
 pub trait ResultExt<T> { fn with_context<S, F: FnOnce() -> S>(self, f: F) -> Result<T, Error>; fn context<S>(self, s: S) -> Result<T, Error>; }
 impl<T> ResultExt<T> for IoResult<T> {
-    fn with_context<S, F: FnOnce() -> S>(self, f: F) -> Result<T, Error> { match self { Ok(v) => Ok(v), Err(e) => Err(Error(e.0)) } }
-    fn context<S>(self, s: S) -> Result<T, Error> { match self { Ok(v) => Ok(v), Err(e) => Err(Error(e.0)) } }
+    fn with_context<S, F: FnOnce() -> S>(self, f: F) -> Result<T, Error> { match self { Ok(v) => Ok(v), Err(e) => Err(Error(1)) } }
+    fn context<S>(self, s: S) -> Result<T, Error> { match self { Ok(v) => Ok(v), Err(e) => Err(Error(1)) } }
 }
 pub struct Arc<T>(pub T);
 impl<T> std::ops::Deref for Arc<T> { type Target = T; fn deref(&self) -> &T { &self.0 } }
@@ -27,8 +35,22 @@ impl<T> std::ops::Deref for Arc<T> { type Target = T; fn deref(&self) -> &T { &s
 pub const BUFN: usize = 2;      // relay buffer size of the harness
 pub const LOGN: usize = 3;      // capacity of the ghost logs
 pub struct IoParams { pub buffer_size: usize }
-pub struct BytesMut { data: [u8; BUFN], len: usize }
-impl BytesMut { pub fn zeroed(n: usize) -> BytesMut { assert!(n <= BUFN); BytesMut { data: [0; BUFN], len: n } } }
+pub struct BytesMut { data: [u8; BUFN], len: usize, cap: usize }
+impl BytesMut {
+    pub fn zeroed(n: usize) -> BytesMut { assert!(n <= BUFN); BytesMut { data: [0; BUFN], len: n, cap: n } }
+    pub fn with_capacity(n: usize) -> BytesMut { assert!(n <= BUFN); BytesMut { data: [0; BUFN], len: 0, cap: n } }
+    pub fn new() -> BytesMut { BytesMut { data: [0; BUFN], len: 0, cap: BUFN } }
+    pub fn len(&self) -> usize { self.len }
+    pub fn is_empty(&self) -> bool { self.len == 0 }
+    pub fn capacity(&self) -> usize { self.cap }
+    pub fn clear(&mut self) { self.len = 0; }
+    pub fn truncate(&mut self, n: usize) { if n < self.len { self.len = n; } }
+    pub fn has_remaining(&self) -> bool { self.len > 0 }
+    pub fn remaining(&self) -> usize { self.len }
+    /// Buf::advance: drop n bytes from the front
+    pub fn advance(&mut self, n: usize) { assert!(n <= self.len, "advance past the end"); let mut i = 0; while i < BUFN { if i + n < BUFN { self.data[i] = self.data[i + n]; } i += 1; } self.len -= n; }
+    pub fn reserve(&mut self, n: usize) { }
+}
 impl std::ops::Deref for BytesMut { type Target = [u8]; fn deref(&self) -> &[u8] { &self.data[..self.len] } }
 impl std::ops::DerefMut for BytesMut { fn deref_mut(&mut self) -> &mut [u8] { &mut self.data[..self.len] } }
 
@@ -83,8 +105,55 @@ impl<T> ReadHalf<T> {
         ready(Ok(n))
     } }
 }
+impl<T> ReadHalf<T> {
+    /// AsyncReadExt::read_buf: appends the next 1..=spare bytes to buf; Ok(0) = end of stream (or no spare capacity)
+    pub fn read_buf(&mut self, buf: &mut BytesMut) -> Ready<IoResult<usize>> { unsafe {
+        STEPS += 1;
+        if nondet_bool() { return ready(Err(IoError(1))); }
+        let spare = buf.cap - buf.len;
+        let n = nondet_usize();
+        assume(n <= spare && SRC_POS + n <= LOGN);
+        if STEPS >= MAX_STEPS { assume(n == 0); }
+        if n == 0 && spare > 0 { SRC_EOF = true; }
+        let mut i = 0;
+        while i < BUFN { if i < n { buf.data[buf.len + i] = SRC[SRC_POS + i]; } i += 1; }
+        buf.len += n; SRC_POS += n;
+        ready(Ok(n))
+    } }
+}
 pub struct WriteHalf<T>(pub T);
 impl<T> WriteHalf<T> {
+    fn accept(&mut self, buf: &[u8], n: usize) { unsafe {
+        assert!(DST_POS + n <= LOGN);
+        let mut i = 0;
+        while i < BUFN { if i < n { DST[DST_POS + i] = buf[i]; } i += 1; }
+        DST_POS += n;
+    } }
+    /// AsyncWriteExt::write: ONE write call, accepts a non-empty prefix of buf (short writes are legal), or Err
+    pub fn write(&mut self, buf: &[u8]) -> Ready<IoResult<usize>> { unsafe {
+        if DST_SHUT > 0 { WRITE_AFTER_SHUT = true; }
+        if nondet_bool() { return ready(Err(IoError(2))); }
+        let n = nondet_usize(); assume(n <= buf.len() && (n > 0 || buf.len() == 0));
+        self.accept(buf, n);
+        ready(Ok(n))
+    } }
+    /// AsyncWriteExt::write_buf: ONE write call on the remaining bytes of buf, which is advanced by what was accepted
+    pub fn write_buf(&mut self, buf: &mut BytesMut) -> Ready<IoResult<usize>> { unsafe {
+        if DST_SHUT > 0 { WRITE_AFTER_SHUT = true; }
+        if nondet_bool() { return ready(Err(IoError(2))); }
+        let n = nondet_usize(); assume(n <= buf.len && (n > 0 || buf.len == 0));
+        let d = buf.data; self.accept(&d[..buf.len], n);
+        buf.advance(n);
+        ready(Ok(n))
+    } }
+    /// AsyncWriteExt::write_all_buf: everything remaining in buf is accepted in order and buf is emptied, or Err
+    pub fn write_all_buf(&mut self, buf: &mut BytesMut) -> Ready<IoResult<()>> { unsafe {
+        if DST_SHUT > 0 { WRITE_AFTER_SHUT = true; }
+        if nondet_bool() { return ready(Err(IoError(2))); }
+        let d = buf.data; let n = buf.len; self.accept(&d[..n], n);
+        buf.len = 0;
+        ready(Ok(()))
+    } }
     /// AsyncWriteExt::write_all: all of buf is accepted in order, or Err (then an unspecified prefix was: modelled as none)
     pub fn write_all(&mut self, buf: &[u8]) -> Ready<IoResult<()>> { unsafe {
         if DST_SHUT > 0 { WRITE_AFTER_SHUT = true; }
